@@ -67,6 +67,7 @@ REGISTRY = {
         "technique": "property-based testing (rapid) over scripted connection histories in testing/synctest with byte-level peer observation",
         "tests": [
             {"name": "TestC07Gate", "shards": 8, "shards_thorough": 16},
+            {"name": "TestC07ClosingStuck", "shards": 4, "shards_thorough": 8, "crash_is_violation": True},
         ],
         "require": {"c07:between-generations": 398, "c07:closed": 760, "c07:connected-not-selected": 1024, "c07:connecting": 262, "c07:deselected": 412, "c07:deselected-pipelined": 527, "c07:never-opened": 780, "c07:pipeline:cuts": 437, "c07:pipeline:cuts-settle": 379, "c07:pipeline:drip": 353, "c07:pipeline:one-write": 435, "c07:role:active": 2991, "c07:role:passive": 2983, "c07:select-rejected": 214},
     },
